@@ -38,9 +38,22 @@ class HarnessError(Exception):
 
 def build_native(cache, repo='/repo', variant='O1', cxx='g++'):
     """Build the native harness for this cache entry (same generated sources as the tracer)."""
+    import fcntl
     exe = os.path.join(cache, 'native_%s_%s' % (cxx.replace('+', 'x'), variant))
     if os.path.exists(exe):
         return exe
+    lock = open(os.path.join(cache, 'native_%s.lock' % variant), 'w')
+    fcntl.flock(lock, fcntl.LOCK_EX)       # one builder at a time; the others find the result
+    try:
+        if os.path.exists(exe):
+            return exe
+        return _build_native(cache, repo, variant, cxx, exe)
+    finally:
+        fcntl.flock(lock, fcntl.LOCK_UN)
+        lock.close()
+
+
+def _build_native(cache, repo, variant, cxx, exe):
     inc = os.path.join(repo, 'include')
     extract = os.path.join(VERIF, 'extract')
     flags = [cxx, '-std=c++17', '-w', '-fno-fast-math', '-ffp-contract=off', '-DVERIF_NATIVE',
